@@ -50,4 +50,62 @@ def zoSpec (rho b : Nat) : Int := if b ≤ rho then (if (b / 2) % 2 = 1 then 1 e
 /-- positions of the non-zero coefficients of modulus `cm` -/
 def support (n : Nat) (out : List Nat) (cm : Nat) : List Nat := (List.range n).filter fun i => getW out n cm i != 0
 
+/-! ### array-backed evaluation of the same predicates (large degrees: `List.getD` is linear in the index).
+`Proofs/SamplersFast.lean` proves each `…A … out.toArray = … out`. -/
+
+def getWA (a : Array Nat) (n cm i : Nat) : Nat := a.getD (cm * n + i) 0
+
+def canonicalA (n : Nat) (ps : List Nat) (a : Array Nat) : Bool :=
+  a.size == n * ps.length &&
+  (List.range ps.length).all fun cm => (List.range n).all fun i => decide (getWA a n cm i < ps.getD cm 0)
+
+def crtCoefA (n : Nat) (ps : List Nat) (a : Array Nat) (bound : Nat) (ok : Int → Bool) (i : Nat) : Bool :=
+  match ps with
+  | [] => true
+  | p0 :: _ =>
+    let r0 := getWA a n 0 i
+    let cands : List Int := (if r0 ≤ bound then [(r0 : Int)] else []) ++
+      (if r0 < p0 ∧ 0 < p0 - r0 ∧ p0 - r0 ≤ bound then [-((p0 - r0 : Nat) : Int)] else [])
+    cands.any fun v => ok v && (List.range ps.length).all fun cm => getWA a n cm i == enc (ps.getD cm 0) v
+
+def crtConsistentA (n : Nat) (ps : List Nat) (a : Array Nat) (bound : Nat) (ok : Int → Bool) : Bool :=
+  (List.range n).all (crtCoefA n ps a bound ok)
+
+def encodesA (n : Nat) (ps : List Nat) (a : Array Nat) (v : Nat → Int) : Bool :=
+  a.size == n * ps.length &&
+  (List.range ps.length).all fun cm => (List.range n).all fun i => getWA a n cm i == enc (ps.getD cm 0) (v i)
+
+def supportA (n : Nat) (a : Array Nat) (cm : Nat) : List Nat := (List.range n).filter fun i => getWA a n cm i != 0
+
+/-! ### fixed weight: the positions, stated on the flat stream of 64-bit words of the position phase.
+
+Step `k` (`k = h … n-1`) draws an index in `[0,k]` from a 64-bit word `x`: the words are cut into blocks of `k+1`
+consecutive values; `x` is used iff its block is one of the `⌊(2^64-1)/(k+1)⌋` COMPLETE blocks below the top of the
+range (then `x mod (k+1)` is uniform on `[0,k]` for a uniform word: each index has exactly one word per block);
+otherwise the next word is tried.  The reservoir keeps position `k` in slot `idx` when `idx < h`. -/
+
+def specAccept (k x : Nat) : Bool := decide (x / (k + 1) < (2 ^ 64 - 1) / (k + 1))
+
+/-- first word of the incomplete top block of step `k` (every word `≥ rejThreshold k` must be rejected) -/
+def rejThreshold (k : Nat) : Nat := (2 ^ 64 - 1) / (k + 1) * (k + 1)
+
+/-- the reservoir run over the word stream.  `flips` (ascending word indices whose accept/reject decision is
+INVERTED) is `[]` for the specification; the driver uses non-empty `flips` only to *explain* a wrong answer.
+Returns (slots, step reached, words consumed). -/
+def specRun (h n : Nat) : List Nat → (t k : Nat) → Array Nat → List Nat → Array Nat × Nat × Nat
+  | [], t, k, hit, _ => (hit, k, t)
+  | x :: ws, t, k, hit, flips =>
+    if k ≥ n then (hit, k, t)
+    else
+      let flip := flips.head? == some t
+      let flips' := if flip then flips.tail else flips
+      if specAccept k x != flip then
+        specRun h n ws (t + 1) (k + 1) (if x % (k + 1) < h then hit.setIfInBounds (x % (k + 1)) k else hit) flips'
+      else specRun h n ws (t + 1) k hit flips'
+
+/-- ascending positions chosen on the word stream `ws` (`none`: the stream ends before step `n-1` is done) -/
+def specPositions (h n : Nat) (ws : List Nat) : Option (List Nat) :=
+  let r := specRun h n ws 0 h (Array.range h) []
+  if r.2.1 ≥ n then some (r.1.toList.mergeSort fun a b => decide (a ≤ b)) else none
+
 end Nfl.Spec.Samplers
